@@ -20,6 +20,7 @@
    Output:
      DIVERGE <lineno> <kind> model=<..> impl=<..>     model and implementation disagree (kind: resp | tab-rib | tab-fib | ...)
      ORACLE <lineno> <which> <detail>                 a specification predicate is false on the implementation's observations
+                                                      (dataset-unanswered: detail = sizes of the tables before the request)
      BADLINE <lineno> <text>
      DONE <lines> <commands> *)
 open Mgmt_model
@@ -257,7 +258,9 @@ let () =
            | Some (c, cln), Some (obs, _), Some mst, Some pre ->
              let obs_s = String.concat " " obs in
              (* 1. the model, with the implementation's RIB->FIB flattening / face clean-up as the external functions *)
-             let out = run (fun _ _ _ -> post.s_fib) (fun _ _ _ -> (post.s_rib, post.s_fib)) !allow mst !model_vs c in
+             (*    and "does the encoded dataset fit one segment" answered by what the implementation did *)
+             let fits = (match obs with "data" :: _ -> true | _ -> false) in
+             let out = run (fun _ _ _ -> post.s_fib) (fun _ _ _ -> (post.s_rib, post.s_fib)) !allow (fun _ -> fits) mst !model_vs c in
              (match out with
               | Panic ->
                 if not (List.length obs >= 1 && List.hd obs = "panic") then diverge cln "resp" "panic" obs_s;
@@ -288,6 +291,10 @@ let () =
                    if not (spec_reject_pure pre r post) then oracle cln "impure-reject" obs_s;
                    if not (spec_status_class r) then oracle cln "status-class" obs_s;
                    if not (spec_dataset c r post) then oracle cln "dataset" obs_s;
+                   if not (spec_answered !allow c r) then
+                     oracle cln "dataset-unanswered"
+                       (Printf.sprintf "rib=%d,fib=%d,strat=%d,faces=%d" (List.length pre.s_rib) (List.length pre.s_fib)
+                          (List.length pre.s_strat) (List.length pre.s_faces));
                    if strat_known pre.s_strat && root_has_strategy pre.s_strat && not (spec_strategies post) then
                      oracle cln "strategy-table" strat;
                    if faces_usable pre && not (faces_usable post) then oracle cln "mtu-floor" faces;
